@@ -14,8 +14,8 @@ from engine.facts import pstr, ptext, strip, callee_name, subexprs, last_field, 
 PID = 'C02'
 
 META = {
-    'technique': 'dominance / must-pass-through on the event-CFG of the packetization thread (temporal delimiter before every post), typestate of the OBU writers (header -> memmove -> size with agreeing argument expressions, by dominance and post-dominance), who-may-use check of the sequence-header type constant',
-    'text': 'Decides the structural part of packet well-formedness on every path: no packet can be posted without a temporal delimiter having been written into that buffer, every OBU writer frames its payload consistently (size field announced, payload shifted by the same amounts the size is written with), and the sequence header has one writer used by both the API and the key-frame path. The contents of the OBUs, exactly-one-shown-frame and EOS placement depend on queue contents at run time and are not decided. The framing clause follows helper functions: the gap opened for the size field (uleb length of X) and the value written into it must be the same X after inlining locals and substituting helper parameters. Also decided: every member the sequence-header writer reads is final before the pipeline starts (no run-time store of a non-zero value) - the condition under which the header is byte-identical each time and to svt_av1_enc_stream_header (4 recorded findings, replayed); and EB_AV1_KEY_PICTURE is reported only under the key-frame predicate.',
+    'technique': 'dominance / must-pass-through on the event-CFG of the packetization thread (temporal delimiter before every post), typestate of the OBU writers (header -> memmove -> size with agreeing argument expressions, by dominance and post-dominance), who-may-use check of the sequence-header type constant; interprocedural effect (store-set) analysis of the stream-header API with ownership of the objects created by the call propagated to callee parameters',
+    'text': 'Decides the structural part of packet well-formedness on every path: no packet can be posted without a temporal delimiter having been written into that buffer, every OBU writer frames its payload consistently (size field announced, payload shifted by the same amounts the size is written with), and the sequence header has one writer used by both the API and the key-frame path. The contents of the OBUs, exactly-one-shown-frame and EOS placement depend on queue contents at run time and are not decided. The framing clause follows helper functions: the gap opened for the size field (uleb length of X) and the value written into it must be the same X after inlining locals and substituting helper parameters. Also decided: every member the sequence-header writer reads is final before the pipeline starts (no run-time store of a non-zero value) - the condition under which the header is byte-identical each time and to svt_av1_enc_stream_header (4 recorded findings, replayed); and EB_AV1_KEY_PICTURE is reported only under the key-frame predicate. Also decided: svt_av1_enc_stream_header, which the application may call at any time, stores only into objects created by that call or has the effects the in-band header path has itself (no store to session state the packetization path reads); the header serialiser and the entry shared by the API and the key-frame path are identified structurally, and an entry that replays stored bytes is accepted only when the serialiser runs before the pipeline starts.',
     'note': 'error packets posted by lib_svt_encoder_send_error_exit (p_buffer NULL, size 0) are not stream packets; allocation-failure returns are error exits',
     'ref': 'DESIGN.md section 5 C02',
 }
